@@ -64,6 +64,25 @@ func (d bothDialer) DialURL(u *transport.URL) (net.Conn, error) {
 	return nil, &hit{id: d.id, url: u}
 }
 
+// funcDialer and sliceDialer: dialers whose dynamic types cannot be compared with == (an adapter that turns a function
+// into a Dialer; a value with a slice field). A registry is a map from scheme to dialer: it has no reason to compare them.
+type funcDialer func(u *transport.URL) (net.Conn, error)
+
+func (f funcDialer) DialURL(u *transport.URL) (net.Conn, error) { return f(u) }
+
+func newFuncDialer(id int, scheme string) funcDialer {
+	return func(u *transport.URL) (net.Conn, error) { return plainDialer{id: id, scheme: scheme}.DialURL(u) }
+}
+
+type sliceDialer struct {
+	ids    []int
+	scheme string
+}
+
+func (d sliceDialer) DialURLContext(ctx context.Context, u *transport.URL) (net.Conn, error) {
+	return ctxDialer{id: d.ids[0], scheme: d.scheme}.DialURLContext(ctx, u)
+}
+
 // connDialer returns a real connection, which must be handed through untouched.
 type connDialer struct{ conn net.Conn }
 
@@ -136,6 +155,16 @@ func runDispatch(c *ctx) {
 		expect("all registered", s, i+1)
 	}
 	for i, s := range all {
+		transport.RegisterDialer(s, plainDialer{id: 100 + i, scheme: s})
+		expect("re-registered", s, 100+i)
+		// replaced again, by dialers of types that cannot be compared, twice each (same dynamic type on both sides)
+		transport.RegisterDialer(s, newFuncDialer(200+i, s))
+		expect("re-registered (func dialer)", s, 200+i)
+		transport.RegisterDialer(s, newFuncDialer(300+i, s))
+		expect("re-registered (func dialer over func dialer)", s, 300+i)
+		transport.RegisterContextDialer(s, sliceDialer{ids: []int{400 + i}, scheme: s})
+		transport.RegisterContextDialer(s, sliceDialer{ids: []int{500 + i}, scheme: s})
+		expect("re-registered (slice dialer over slice dialer)", s, 500+i)
 		transport.RegisterDialer(s, plainDialer{id: 100 + i, scheme: s})
 		expect("re-registered", s, 100+i)
 		for j, s2 := range all {
@@ -333,10 +362,15 @@ func runHistory(c *ctx, r *rand.Rand, idx int) {
 				call := clock.Add(1)
 				switch in.Op {
 				case opRegister:
-					if in.ID%2 == 0 {
+					switch in.ID % 4 {
+					case 0:
 						transport.RegisterDialer(histSchemes[si], plainDialer{id: in.ID, scheme: histSchemes[si]})
-					} else {
+					case 1:
 						transport.RegisterContextDialer(histSchemes[si], ctxDialer{id: in.ID, scheme: histSchemes[si]})
+					case 2:
+						transport.RegisterDialer(histSchemes[si], newFuncDialer(in.ID, histSchemes[si]))
+					default:
+						transport.RegisterContextDialer(histSchemes[si], sliceDialer{ids: []int{in.ID}, scheme: histSchemes[si]})
 					}
 				case opUnregister:
 					transport.UnregisterDialer(histSchemes[si])
